@@ -1,0 +1,41 @@
+/*
+ * Verification hooks (model-based verification of TASMANIAN, /verif).
+ * Everything in this header is inert unless the library is compiled with
+ * -DTASMANIAN_VERIF_HOOKS; with the guard off both macros expand to nothing.
+ * With the guard on, events are delivered to a sink function that is null
+ * (hence a no-op) unless a test driver installs one.
+ */
+#ifndef __TASMANIAN_VERIF_HOOKS_HPP
+#define __TASMANIAN_VERIF_HOOKS_HPP
+
+#ifdef TASMANIAN_VERIF_HOOKS
+#include <initializer_list>
+#include <atomic>
+
+namespace TasGrid{ namespace VerifHooks{
+    //! event sink: name of the event and a short list of integer arguments
+    typedef void (*EventSink)(const char *event, const long long *args, int num_args);
+    //! schedule-point sink: called outside of any lock, a driver may yield or sleep here
+    typedef void (*SchedSink)(const char *where);
+
+    inline std::atomic<EventSink>& eventSink(){ static std::atomic<EventSink> s(nullptr); return s; }
+    inline std::atomic<SchedSink>& schedSink(){ static std::atomic<SchedSink> s(nullptr); return s; }
+
+    inline void emit(const char *event, std::initializer_list<long long> args){
+        EventSink s = eventSink().load();
+        if (s != nullptr) s(event, args.begin(), (int) args.size());
+    }
+    inline void sched(const char *where){
+        SchedSink s = schedSink().load();
+        if (s != nullptr) s(where);
+    }
+}}
+
+#define TSG_VERIF_EVENT(...) ::TasGrid::VerifHooks::emit(__VA_ARGS__)
+#define TSG_VERIF_SCHED(where) ::TasGrid::VerifHooks::sched(where)
+#else
+#define TSG_VERIF_EVENT(...)
+#define TSG_VERIF_SCHED(where)
+#endif
+
+#endif
